@@ -286,3 +286,22 @@ class DictObj(Val):
 
     def __repr__(self):
         return "Dict{" + ", ".join(self.entries) + "}"
+
+
+def safe_forall(vs, body, patterns=None):
+    """z3.ForAll with the given patterns if z3 accepts them (a select over a store chain may be rewritten to an ite,
+    which is not allowed in patterns), with inferred patterns otherwise"""
+    if patterns:
+        try:
+            return z3.ForAll(vs, body, patterns=patterns)
+        except z3.Z3Exception:
+            good = []
+            for p_ in patterns:
+                try:
+                    z3.ForAll(vs, body, patterns=[p_])
+                    good.append(p_)
+                except z3.Z3Exception:
+                    pass
+            if good:
+                return z3.ForAll(vs, body, patterns=good)
+    return z3.ForAll(vs, body)
